@@ -619,6 +619,33 @@ func c19ParserErrorDiscipline(c *Ctx, r *Report, clause string) {
 	} else {
 		bad = append(bad, "Parser.Parse not found")
 	}
+	// expect() is lenient because — and only as long as — it leaves the offending token current: no path of it both
+	// records an error and moves on to the next token
+	if f := c.Func("Parser", "parser", "expect"); f != nil {
+		paths, err := newPathEnum(f.Pkg.TypesInfo).Enumerate(f.Decl.Body.List)
+		if err != nil {
+			bad = append(bad, "Parser.(*parser).expect: "+err.Error())
+		}
+		for _, p := range paths {
+			errs, steps := false, false
+			for _, e := range p.Effects {
+				if e.Kind != "call" || e.Term == nil {
+					continue
+				}
+				if strings.HasSuffix(e.Term.Name, "parser).error") {
+					errs = true
+				}
+				if strings.HasSuffix(e.Term.Name, "parser).next") || strings.HasSuffix(e.Term.Name, "parser).nextToken") {
+					steps = true
+				}
+			}
+			if errs && steps {
+				bad = append(bad, fmt.Sprintf("Parser.(*parser).expect complains about the current token and steps over it on the path [%s]: after a lexical error every later token is EOF, so the rule loop ends cleanly and the truncated grammar is generated", p.CondString()))
+			}
+		}
+	} else {
+		bad = append(bad, "Parser.(*parser).expect not found")
+	}
 	_ = errFn
 	sortStrings(bad)
 	key := "Parser/a-recorded-error-stops-the-parse"
